@@ -284,28 +284,37 @@ class Resolver:
                     continue
                 pos = [p_ for p_ in fn.positional if p_ != "self"]
                 idx = pos.index(val.id) if val.id in pos else None
-                for m in self.p.modules.values():
-                    for call in ast.walk(m.tree):
-                        if not isinstance(call, ast.Call):
-                            continue
-                        tgt = self.p.resolve_expr_static(m, call.func) if isinstance(
-                            call.func, (ast.Name, ast.Attribute)) else None
-                        if not (isinstance(tgt, ClassInfo) and
-                                (tgt is fn.cls or tgt.is_subclass_of(fn.cls))):
-                            continue
-                        arg = None
-                        if idx is not None and idx < len(call.args):
-                            arg = call.args[idx]
-                        for k in call.keywords:
-                            if k.arg == val.id:
-                                arg = k.value
-                        if arg is None:
-                            continue
-                        owner = self.p.enclosing_func(m, call)
-                        if owner is None:
-                            owner = Func(ast.parse("def _m(): pass").body[0], m)
-                        r2 = self.resolve_callable_expr(owner, arg, 1)
-                        out += [x for x in r2.callees if x not in out]
+                for m, call, tgt in self._all_ctor_calls():
+                    if not (tgt is fn.cls or tgt.is_subclass_of(fn.cls)):
+                        continue
+                    arg = None
+                    if idx is not None and idx < len(call.args):
+                        arg = call.args[idx]
+                    for k in call.keywords:
+                        if k.arg == val.id:
+                            arg = k.value
+                    if arg is None:
+                        continue
+                    owner = self.p.enclosing_func(m, call)
+                    if owner is None:
+                        owner = Func(ast.parse("def _m(): pass").body[0], m)
+                    r2 = self.resolve_callable_expr(owner, arg, 1)
+                    out += [x for x in r2.callees if x not in out]
+        return out
+
+    def _all_ctor_calls(self):
+        """[(module, call, ClassInfo)] for every call in the package whose callee
+        resolves statically to a repo class (computed once)"""
+        if "ctorcalls" in self._cache:
+            return self._cache["ctorcalls"]
+        out = []
+        for m in self.p.modules.values():
+            for call in ast.walk(m.tree):
+                if isinstance(call, ast.Call) and isinstance(call.func, (ast.Name, ast.Attribute)):
+                    tgt = self.p.resolve_expr_static(m, call.func)
+                    if isinstance(tgt, ClassInfo):
+                        out.append((m, call, tgt))
+        self._cache["ctorcalls"] = out
         return out
 
     def alias_bound(self, classes, name):
